@@ -171,7 +171,9 @@ func returnNud(p *parser, t *token) *token {
 }
 
 func callLed(p *parser, t *token, left *token) *token {
-	call := symAtPos(p.Token.Pos, "call")
+	// the call sits at its "(": on the callee's line, also when the
+	// arguments continue on later lines
+	call := symAtPos(t.Pos, "call")
 	call.Append(left)
 	arguments := symAtPos(p.Token.Pos, "arguments")
 	call.Append(arguments)
